@@ -171,6 +171,21 @@ func degenerate(g orb.Geometry) string {
 	return ""
 }
 
+// hasBound reports a bound anywhere in g (a projected bound is re-normalised, not mapped corner by corner).
+func hasBound(g orb.Geometry) bool {
+	switch v := g.(type) {
+	case orb.Bound:
+		return true
+	case orb.Collection:
+		for _, m := range v {
+			if hasBound(m) {
+				return true
+			}
+		}
+	}
+	return false
+}
+
 func short(name string) string { return strings.TrimPrefix(name, "github.com/paulmach/orb") }
 
 func main() {
@@ -471,6 +486,44 @@ func main() {
 			}
 			if refgeom.Struct(got) != refgeom.Struct(want) {
 				c.Failf("typed-vs-generic", "clip.Geometry(%v, %s) = %v, the typed function gives %v", sb, desc, got, want)
+			}
+		}
+		// typed vs generic for projections: Geometry(g, f) is what the function for g's kind returns, and both are
+		// the coordinate-wise image of g (structure, nil-ness of slices and vertex order kept)
+		{
+			f := func(p orb.Point) orb.Point { return orb.Point{p[0]*2 + 1, 3 - p[1]} }
+			var want, got orb.Geometry
+			_, p1 := try(func() interface{} {
+				switch v := orb.Clone(g).(type) {
+				case orb.Point:
+					want = project.Point(v, f)
+				case orb.MultiPoint:
+					want = project.MultiPoint(v, f)
+				case orb.LineString:
+					want = project.LineString(v, f)
+				case orb.MultiLineString:
+					want = project.MultiLineString(v, f)
+				case orb.Ring:
+					want = project.Ring(v, f)
+				case orb.Polygon:
+					want = project.Polygon(v, f)
+				case orb.MultiPolygon:
+					want = project.MultiPolygon(v, f)
+				case orb.Collection:
+					want = project.Collection(v, f)
+				case orb.Bound:
+					want = project.Bound(v, f)
+				}
+				return nil
+			})
+			_, p2 := try(func() interface{} { got = project.Geometry(orb.Clone(g), f); return nil })
+			if p1 == "" && p2 == "" && g != nil && orb.Clone(g) != nil {
+				if refgeom.Struct(got) != refgeom.Struct(want) {
+					c.Failf("typed-vs-generic", "project.Geometry(%s) = %v, the typed function gives %v", desc, got, want)
+				}
+				if _, isBound := g.(orb.Bound); !isBound && !hasBound(g) && refgeom.Struct(got) != refgeom.Struct(refgeom.Map(g, f)) {
+					c.Failf("typed-vs-generic", "project.Geometry(%s) = %v, the coordinate-wise image is %v", desc, got, refgeom.Map(g, f))
+				}
 			}
 		}
 		// typed vs generic for tile covers: Geometry(g) is what the function for g's kind returns (degenerate
